@@ -17,8 +17,9 @@ from ..sve import (Lin, Op, Spec, Sym, flatten_effects, show)
 from ..tables import ref_json, tables
 
 STD_NAMES = ["hasconst", "hasname", "opmap", "opname", "EXTENDED_ARG", "HAVE_ARGUMENT", "Bytecode", "Instruction", "findlabels", "findlinestarts",
-             "get_instructions", "code_info", "show_code", "dis", "distb", "disassemble", "disco", "pretty_flags"]
-TABLE_FIELDS = ["hasconst", "hasname", "opmap", "opname", "EXTENDED_ARG", "HAVE_ARGUMENT"]
+             "get_instructions", "code_info", "show_code", "dis", "distb", "disassemble", "disco", "pretty_flags",
+             "cmp_op", "hasjrel", "hasjabs", "haslocal", "hascompare", "hasfree", "hasnargs", "stack_effect"]
+TABLE_FIELDS = ["hasconst", "hasname", "opmap", "opname", "EXTENDED_ARG", "HAVE_ARGUMENT", "cmp_op", "hasjrel", "hasjabs", "haslocal", "hascompare", "hasfree", "hasnargs"]
 
 
 def run(rep, tier):
@@ -175,6 +176,18 @@ def run(rep, tier):
         ok = v is not None and ast.unparse(v) == "%s.%s" % (api_var, nm)
         rep.ob("R3", "xdis.std", "module-level:%s" % nm, ok, expected="%s.%s" % (api_var, nm), derived=ast.unparse(v) if v is not None else None,
                msg="xdis.std.%s is not the default API's %s" % (nm, nm))
+    # every public name of the host's dis module exists in xdis.std (any binding; the ones above are checked for *what* they are bound to)
+    disall = ref_json("dis_all.json")["hosts"]
+    bound = set(top)
+    for s_ in sm.tree.body:
+        if isinstance(s_, (ast.FunctionDef, ast.ClassDef)):
+            bound.add(s_.name)
+        elif isinstance(s_, (ast.Import, ast.ImportFrom)):
+            bound.update((a.asname or a.name).split(".")[0] for a in s_.names)
+    for hk, names in sorted(disall.items(), key=lambda kv: tuple(int(x) for x in kv[0].split("."))):
+        for nm in names:
+            rep.ob("R3", "xdis.std", "dis.__all__:%s@host%s" % (nm, hk), nm in bound, expected="xdis.std.%s exists (dis %s has it)" % (nm, hk), derived="bound" if nm in bound else "missing",
+                   msg="`from xdis.std import %s` fails although the dis module of Python %s exports %s" % (nm, hk, nm))
     selfassign = {}
     for n in ast.walk(init):
         if isinstance(n, ast.Assign):
